@@ -113,6 +113,7 @@ def ops_at(n_members):
                 out.append(("discard_label", lb, c, first))
     out.append(("readd",))                        # add the most recently removed taxon object again
     out.append(("add_taxa", ["b", "@0", "a"]))   # '@0' = the first current member (already in)
+    out.append(("add_taxa", ["b", "=", "a", "="]))   # '=' = the object listed just before it, once more in the same batch
     out.append(("new_taxa", ["a", "A"]))
     out.append(("sort", False))
     out.append(("sort", True))
@@ -269,11 +270,17 @@ class Run(object):
                     if x.startswith("@"):
                         if before:
                             items.append(before[0])
+                    elif x == "=":
+                        if items:
+                            items.append(items[-1])
                     else:
                         t = Taxon(x)
                         self.keep.append(t)
                         items.append(t)
-                fresh = [t for t in items if not any(t is x for x in before)]
+                fresh = []
+                for t in items:   # an object listed twice in the batch becomes a member once
+                    if not any(t is x for x in before) and not any(t is x for x in fresh):
+                        fresh.append(t)
                 allowed = () if (mutable or not fresh) else (ImmutableTaxonNamespaceError,)
                 expect = before + fresh if mutable else before
                 ns.add_taxa(items)
